@@ -3,7 +3,7 @@
    `(th ..)` mark.  Only statements here; proofs live in Proofs/C01_wide.v. *)
 From Coq Require Import Permutation.
 From TauModel Require Import Base Num Oracles Syntax Value Yaml Pratt ParseMap Solver Rule Keys Optimiser Known.
-From TauModel Require Scope3 Order.
+From TauModel Require Scope2 Scope3 Order.
 From TauProofs Require C01 C01_wide.
 
 Theorem scope_wide_sound : forall o ic ord sw y r (d : doc),
@@ -25,3 +25,10 @@ Theorem crate_order_scope_wide_sound : forall o ic sw y r (d : doc),
 Proof. exact C01_wide.crate_order_in_scope_sound. Qed.
 Check crate_order_scope_wide_sound.
 Print Assumptions crate_order_scope_wide_sound.
+
+(* the scope of Properties/C01_d15.v is inside the union *)
+Theorem scope_noq_in_wide : forall o ord sw dt,
+  Scope2.c01_scope_quant_all_noq o ord sw dt = true -> Scope3.c01_scope_wide o ord sw dt = true.
+Proof. exact C01_wide.scope_noq_in_wide. Qed.
+Check scope_noq_in_wide.
+Print Assumptions scope_noq_in_wide.
